@@ -113,6 +113,18 @@ def worlds(tier):
                   dict(base, presubmit=((0, "c1"), (n - 1, "c2")), starters=(0, n - 1), max_starts=2, max_hb=0,
                        max_moves=(10 if kind == "multi" else 9) if q else (11 if (kind == "multi" or (n, q1, q2) == (3, 2, 2)) else
                                                ((8 if q1 == 1 else 10) if n == 3 else 9))), 600_000))
+    # leader hand-off window: a is the established leader; c attempts a take-over; two client commands arrive
+    # during the hand-off, each at whichever node reports is_leader at that moment (old or new leader)
+    W.append(("multi-handoff-2cmds", "log",
+              dict(kind="multi", presubmit=(), establish=(0,), starters=(2,), max_starts=2, late_cmds=("x", "y"),
+                   forward=True, max_hb=0, max_moves=10 if q else 12), 600_000))
+    if not q:
+        W.append(("flex-n3-q22-handoff-2cmds", "log",
+                  dict(kind="flex", q1=2, q2=2, presubmit=(), establish=(0,), starters=(2,), max_starts=2,
+                       late_cmds=("x", "y"), max_hb=0, max_moves=12), 600_000))
+        W.append(("multi-handoff-2cmds-heartbeat", "log",
+                  dict(kind="multi", presubmit=(), establish=(0,), starters=(2,), max_starts=2, late_cmds=("x", "y"),
+                       forward=True, max_hb=1, max_moves=11), 600_000))
     if not q:
         # liveness for every other intersecting (phase-1, phase-2) quorum pair of 3 and 4 nodes, and 5-node clusters
         done = {(n, q1, q2) for n, q1, q2 in flexq}
